@@ -195,25 +195,22 @@ Definition combine_stereo (names : list (list Z)) : list (list Z * list nat) :=
   combine_loop (combine (seq 0 (length names)) names) names [].
 
 (** * parse_path *)
-(** _TOKENIZE_PATH_REGEX = (\\{1,2}|\/) : re.split; the tokens between separators *)
-Fixpoint split_path (fuel : nat) (l cur : list Z) : list (list Z) :=
-  match fuel with
-  | O => [cur]
-  | S f =>
-    match l with
-    | [] => [cur]
-    | c :: t =>
-        if c =? 47 then cur :: split_path f t []
-        else if c =? 92 then
-          match t with
-          | d :: t' => if d =? 92 then cur :: split_path f t' [] else cur :: split_path f t []
-          | [] => cur :: split_path f t []
-          end
-        else split_path f t (cur ++ [c])
-    end
+(** _TOKENIZE_PATH_REGEX = (\\{1,2}|\/) : re.split; the tokens between separators (one or
+    two backslashes, greedily, or one slash) *)
+Fixpoint split_path (l cur : list Z) : list (list Z) :=
+  match l with
+  | [] => [cur]
+  | c :: t =>
+      if c =? 47 then cur :: split_path t []
+      else if c =? 92 then
+        match t with
+        | d :: t' => if d =? 92 then cur :: split_path t' [] else cur :: split_path t []
+        | [] => cur :: split_path t []
+        end
+      else split_path t (cur ++ [c])
   end.
 Definition path_tokens (path : list Z) : list (list Z) :=
-  let toks := split_path (S (length path)) (strip path) [] in
+  let toks := split_path (strip path) [] in
   match rev toks with
   | last_tok :: r => match last_tok with [] => rev r | _ => toks end   (* one trailing empty token dropped *)
   | [] => toks
@@ -230,3 +227,27 @@ Fixpoint find_child (akai : bool) (tok : list Z) (children : list (list Z)) (i :
   | [] => None
   | c :: t => if str_eqb (sanitize_token akai c) tok then Some i else find_child akai tok t (S i)
   end.
+
+(** * The directory tree as parse_path sees it: every node's children with their safe names *)
+Inductive tree := Leaf | Dir (children : list (list Z * tree)).
+(** Walk the tokens down from [t]: Some (child indices) = the node found; None =
+    ErrorInvalidPath ("... was not found ...": no child with that name, or a leaf on the way). *)
+Fixpoint walk (akai : bool) (tokens : list (list Z)) (t : tree) : option (list nat) :=
+  match tokens with
+  | [] => Some []
+  | tok :: rest =>
+      match t with
+      | Leaf => None
+      | Dir ch =>
+          match find_child akai (sanitize_token akai tok) (map fst ch) 0 with
+          | Some i =>
+              match nth_error ch i with
+              | Some (_, sub) => match walk akai rest sub with Some p => Some (i :: p) | None => None end
+              | None => None
+              end
+          | None => None
+          end
+      end
+  end.
+Definition parse_path (akai : bool) (root : tree) (path : list Z) : option (list nat) :=
+  walk akai (path_tokens path) root.
